@@ -1,4 +1,4 @@
-from .core import BASE_TRUST
+from .core import BASE_TRUST, REPO
 
 META = {
     "category": "proof",
@@ -6,7 +6,12 @@ META = {
             "option.EscapeString/UnescapeString/EscapeIdentifier/UnescapeIdentifier/QuoteString/QuoteIdentifier round trips, the whole of "
             "parser.Scanner.Scan (totality by a progress lemma, token/error positions inside the input, a quoted string/identifier scans back to "
             "one token with the original text) and the token-fusion condition of the unary-operator printer; model tied to /repo by a differential "
-            "run on every check. PARTIAL: the grammar layer (goyacc driver + semantic actions + the other String() methods) is not modelled - "
+            "run on every check; and over the OPERATOR-EXPRESSION FRAGMENT of the grammar (binary OR AND = == < <= > >= <> != LIKE || + - * / %, prefix NOT ! - +, postfix IS [NOT] NULL/TRUE/FALSE/UNKNOWN, "
+            "written parentheses as Parentheses nodes): the precedence / associativity declarations and the operator productions are REGENERATED from lib/parser/parser.y on every run "
+            "(extract/precedence -> Csvq/Gen/Precedence.lean, fails closed), the model parser is precedence climbing driven by that table with yacc's conflict-resolution rule, and "
+            "parse(print e) = e is proved for every tree the parser can build (WellFormed, any depth), WellFormed is proved exact (everything parse returns is well formed), the regenerated "
+            "levels are checked against the reviewed order; tied to the real parser by stream op c18.opx (tree shape and printed tokens, valid and invalid token lists). "
+            "PARTIAL: the rest of the grammar layer (statements, clauses, BETWEEN / IN / NOT LIKE / ANY / ALL / row values, functions; goyacc driver + semantic actions + the other String() methods) is not modelled - "
             "parser.Parse totality, error positions, print/parse fixpoint and evaluation agreement are validated by correspondence only "
             "(corpus + grammar-aware mutation + generated queries, all four prepared x ansi-quotes modes)",
     "design_ref": "DESIGN.md section 5, C18",
@@ -24,9 +29,11 @@ def run(run):
         "unicode.IsLetter / unicode.IsDigit are parameters (Classes) of every scanner theorem; scan_quoted_string / scan_quoted_ident assume the quote rune is not a letter or digit (true in Go's tables; checked by the harness for the pool)",
         "unicode.IsSpace is the fixed White_Space set; strings.EqualFold / strings.ToUpper against ASCII keywords are modelled with the two non-ASCII runes that fold / upper-case into ASCII (U+017F, U+212A / U+0131, U+017F)",
         "strconv.ParseInt / ParseFloat on the digit strings scanNumber builds are modelled by exact integer arithmetic (range check 2^1024 - 2^970); digit runs sent to the model are at most 400 runes",
-        "the grammar layer (goyacc tables, driver loop, semantic actions) is outside the Lean model: parse_total:* and print_parse_fixpoint:* are established by correspondence only (partial)",
+        "operator-expression fragment: the Lean parser is precedence climbing with yacc's shift/reduce resolution (token level vs pending rule level, %left reduce / %right shift / %nonassoc error); that this equals what goyacc's LALR tables do on the fragment is validated by stream op c18.opx (accept/reject, tree shape, printed tokens), not proved",
+        "the rest of the grammar layer (goyacc tables, driver loop, semantic actions, statements and clauses) is outside the Lean model: parse_total:* and print_parse_* are established by correspondence only (partial)",
         "print_parse_eval_agree is checked only for generated constant SELECT queries (no tables, whitelisted deterministic functions); texts are never executed otherwise",
     ]
+    run.regen("precedence", ["go", "run", "-C", "extract/precedence", ".", str(REPO / "lib" / "parser" / "parser.y")], "Csvq/Gen/Precedence.lean")
     run.obligations_for(["Csvq.Props.C18"])
     run.stream("c18", 40000 if q else 400000)
     if not q:
@@ -42,9 +49,10 @@ def run(run):
              "(c) structural comparison (positions ignored) of parse(print(t)) with t for every printable sub-tree of every statement (law print_parse_tree_differs), two select-list items with equal printed text but different trees (law distinct_trees_same_text), "
              "a clause matrix covering every combination of the optional parts of each production (order item direction x NULLS position, LIMIT/FETCH x unit x restriction x OFFSET, DISTINCT, IGNORE NULLS, WITHIN GROUP, frames, join kind x NATURAL/USING/ON x LATERAL, set operators x ALL, WITH, FOR UPDATE, INTO; measured per parsed tree in stats clause:*), "
              "evaluation agreement on two tables with NULLs and duplicates; String() -> Parse -> String() fixpoint for every text that parses to one query expression, evaluation agreement for generated constant queries; "
-             "non-trivial = distinct (mode, token-kind sequence, outcome / statement types) or (rune classes, length band) or unary tree shape",
+             "operator expressions: random trees of the fragment written down without added parentheses (depth <= 5) plus damaged token lists, real parser + String() against the model's parse / print; non-trivial = distinct (mode, token-kind sequence, outcome / statement types) or (rune classes, length band) or unary tree shape",
         trusted_base=BASE_TRUST + [
             "unicode.IsLetter/IsDigit tables (parameters of the theorems; driver instance = ASCII + fixed pool, checked against Go at harness start)",
+            "extract/precedence (reads parser.y as text; refuses unknown declarations, production shapes and actions)",
             "goyacc-generated parser tables and driver loop, semantic actions of parser.y, String() methods other than the unary operators (validated by correspondence only)",
         ],
         checker_cmd="cd /verif/lean && lake build Csvq.Props.C18 && lake env lean <#print axioms for every theorem>",
